@@ -17,6 +17,7 @@ CaseResult judge(const fe::Obs &o, const fe::RunConfig &cfg, const std::string &
                      .kv("parent_blocked", hz::hex_sigset(cfg.parent_signals.blocked))
                      .kv("parent_ignored", hz::hex_sigset(cfg.parent_signals.ignored))
                      .kv("parent_handled", hz::hex_sigset(cfg.parent_signals.handled))
+                     .kv("parent_sigchld", cfg.parent_signals.sigchld == 0 ? "default" : cfg.parent_signals.sigchld == 1 ? "ignored" : "handler with SA_NOCLDWAIT")
                      .kv("child_SigBlk", hz::hex_sigset(o.child_sigblk))
                      .kv("child_SigIgn", hz::hex_sigset(o.child_sigign))
                      .kv("child_SigCgt", hz::hex_sigset(o.child_sigcgt))
@@ -63,9 +64,13 @@ CaseResult judge(const fe::Obs &o, const fe::RunConfig &cfg, const std::string &
     if (restoring_call_faulted && o.caller_sig == "caller-mask-changed") res.cls("restoring-call-faulted(excluded)");
     else res.fail(o.caller_sig, ctx + o.caller_diff);
   }
+  // A disposition or the working directory changed in the parent *during* the
+  // call and put back before it returns satisfies the statement ("on every
+  // return path ... exactly what they were before"); it is recorded, not judged.
+  // What counts is the comparison of the caller's state before and after, above.
   for (auto &v : o.vs_violations)
-    if (v.find("chdir(") != std::string::npos || v.find("sigaction(") != std::string::npos || v.find("dup2(") != std::string::npos)
-      res.fail("parent-side-child-action", ctx + v);
+    if (v.find("chdir(") != std::string::npos || v.find("sigaction(") != std::string::npos) res.cls("parent-state-touched-during-start");
+  if (cfg.parent_signals.sigchld) res.cls(cfg.parent_signals.sigchld == 1 ? "sigchld-ignored+fork-fails" : "sigchld-nocldwait+fork-fails");
   if (o.r > 0 && o.hello) {
     const uint64_t std_signals = 0x7fffffffull;  // 1..31
     if (o.child_sigblk != 0)
